@@ -75,6 +75,8 @@ def gen_lookup(rng):
     tops = []
     for i in range(rng.choice([1, 1, 2, 3])):
         tops.append(gen_mod(rng, 0, st, f'emdverif_top{i}', hook=rng.choice(['True', 'True', 'True', 'one', 'absent', 'False', 'np_true'])))
+        if rng.random() < 0.4:
+            tops[-1]['regname'] = f'emdverif_pkg{i}.' + rng.choice(['sub', 'io.readers', 'a.b.c.d.e.f.g']) + f'.top{i}'
     if rng.random() < 0.35:       # a deep chain, around the documented depth
         d = rng.choice([3, 4, 5, 6, 7])
         cname = rng.choice(CLASSNAMES)
@@ -182,7 +184,14 @@ class World:
     def __enter__(self):
         self.names = []
         for t in self.tops:
-            nm = t['attr']
+            nm = t.get('regname') or t['attr']
+            if '.' in nm:
+                # an imported sub-module sits in sys.modules under a dotted name; its parent package here has no hook and does not
+                # even refer to it: a module that opts in is searched whatever its place in a package hierarchy
+                parent = nm.rsplit('.', 1)[0]
+                if parent not in sys.modules:
+                    sys.modules[parent] = types.ModuleType(parent)
+                    self.names.append(parent)
             sys.modules[nm] = self.mods[t['mid']]
             self.names.append(nm)
         return self
@@ -459,6 +468,9 @@ def gen_e2e(rng):
                 t2 = {'k': 'mod', 'attr': 'emdverif_top1', 'mid': st.newm(), 'hook': 'True', 'members': cmems[1:]}
                 st.mods[t2['mid']] = t2
                 tops.append(t2)
+        if rng.random() < 0.4:
+            # the hooked module is an imported sub-module (dotted name in sys.modules) of a package that has no hook itself
+            tops[0]['regname'] = 'emdverif_pkg.' + rng.choice(['models', 'io.v2']) + '.top0'
         placements.append({'how': how, 'tops': tops})
     return {'kind': 'e2e', 'classes': classes, 'kids': kids, 'rootmd': rootmd, 'used': sorted(used), 'placements': placements}
 
@@ -580,6 +592,14 @@ def run_e2e(sc, scratch):
             os.remove(p)
         return out
     out['links'] = file_links(p)
+    if sc.get('want_slot'):
+        from harness import tree as T_
+        out['slot'] = T_.abs_slot(p)
+        try:
+            from emdfile.utils import _is_EMD_file
+            out['is_emd'] = bool(_is_EMD_file(p))
+        except BaseException as e:
+            out['is_emd'] = False
     for pl in sc['placements']:
         w = World(pl['tops'], made=made)
         o = {'how': pl['how']}
